@@ -54,6 +54,13 @@ def snapshot_impl(cfg, nodes, index):
     return s
 
 
+def keys_impl(cfg, index):
+    """the multigraph's own keys (`Gtirb.Cfg.MStore` in the keyed model)"""
+    return fmt("%d:%d:%d:%s" % (index[id(a)], index[id(b)], k,
+                               lab_s(d["label"]))
+               for a, b, k, d in cfg.nx().edges(keys=True, data=True))
+
+
 def snapshot_ref(ref, nodes):
     """ref: python set of (src_idx, dst_idx, label_str)"""
     def es(t):
@@ -78,6 +85,8 @@ def one_history(ctx, hist_no, steps):
     ref = set()
     lines = ["reset %d" % len(nodes)]
     impl_out = ["ok"]
+    klines = ["reset %d" % len(nodes)]     # the keyed model: same lines, but
+    kimpl = ["ok"]                         # set arguments in iteration order
     script = []
 
     def rand_edge(prefer_member):
@@ -155,6 +164,9 @@ def one_history(ctx, hist_no, steps):
             want_exc = None
             arg = list(es) if dups or (op == "update" and rng.random() < 0.5) \
                 else set(es)
+            # the order in which the implementation will meet the edges
+            # (multigraph keys are allocated in that order)
+            kline = op + "".join(" " + edge_s(index, e) for e in list(arg))
             if op == "update" and rng.random() < 0.3:
                 arg = iter(list(es))
             try:
@@ -184,10 +196,16 @@ def one_history(ctx, hist_no, steps):
                 ref ^= ks
         script.append(line)
         lines.append(line)
+        klines.append(kline if op in ("update", "ior", "iand", "isub",
+                                      "ixor") else line)
         try:
             snap = snapshot_impl(cfg, nodes, index)
         except Exception as ex:   # noqa
             snap = "snapshot-raised:" + type(ex).__name__
+        try:
+            ksnap = snap + " keys=" + keys_impl(cfg, index)
+        except Exception as ex:   # noqa
+            ksnap = snap + " keys-raised:" + type(ex).__name__
         # block views
         views_ok = True
         for i, n in enumerate(nodes):
@@ -214,6 +232,8 @@ def one_history(ctx, hist_no, steps):
         head = ("KeyError " if exc == "KeyError" else "ok ")
         impl_out.append(head + snap if line != "popempty" else
                         ("KeyError" if exc == "KeyError" else "invalid"))
+        kimpl.append(head + ksnap if line != "popempty" else
+                     ("KeyError" if exc == "KeyError" else "invalid"))
         ctx.evaluations += 1
         ctx.count("op:" + op + (":" + exc if exc else ""))
         ctx.nontriv((op, min(before, 3), min(len(ref), 3), exc))
@@ -225,6 +245,7 @@ def one_history(ctx, hist_no, steps):
                        "CFG differs from a set after %r" % line)
             return False
     ctx.tie.add("history %d" % hist_no, lines, impl_out)
+    ctx.ktie.add("history %d" % hist_no, klines, kimpl)
     if hist_no < 2:
         ctx.sample({"script": script[:12], "final": impl_out[-1][:200]})
     return True
@@ -239,21 +260,25 @@ def run(ctx):
                 "set and vs the Lean model; non-trivial = distinct (op, "
                 "size before, size after, exception)")
     ctx.tie = core.BatchTie(ctx, "cfg", "cfg")
+    ctx.ktie = core.BatchTie(ctx, "cfgkeyed", "cfgkeyed")
     n = ctx.scale(150, 6000)
     for h in range(n):
         if not one_history(ctx, h, ctx.scale(40, 60)):
             if len(ctx.violations) >= 3:
                 break
     ctx.tie.flush()
+    ctx.ktie.flush()
 
 
 def search(ctx, broken):
     ctx.tie = core.BatchTie(ctx, "cfg", "cfg")
+    ctx.ktie = core.BatchTie(ctx, "cfgkeyed", "cfgkeyed")
     for h in range(2000):
         one_history(ctx, 10**6 + h, 60)
         if ctx.violations:
             break
     ctx.tie.flush()
+    ctx.ktie.flush()
 
 
 def replay(ctx, data):
